@@ -56,11 +56,6 @@ class MmrFnTranslator(FnTranslator):
                 stmts = [("let", s[1], t, s[3])] + list(stmts[1:])
         return FnTranslator.seq(self, stmts, final, env, hint)
 
-    def is_untyped_lit(self, e):
-        # additionally: an untyped-literal shifted by anything is still an untyped literal (rs2v has this),
-        # and `lit - lit` etc.; nothing else.
-        return FnTranslator.is_untyped_lit(self, e)
-
 
 FNS = [
     # (file, rust name, coq name, call paths)
